@@ -167,10 +167,114 @@ func genC08(h *H) {
 		h.do("length", "pubkey_parse", hx(c[:l]))
 		h.do("length", "schnorr_pubkey_parse", hx(c[:l]))
 	}
+	// points built from a chosen x^3 / a small y (see specialPoints): every encoding, and the flipped y
+	for _, pt := range h.specialPoints(4 * h.budget) {
+		x, y := be32(pt[0]), be32(pt[1])
+		ny := negY(y)
+		for _, t := range []byte{4, 6, 7} {
+			h.do("special-point", "pubkey_parse", hx(cat([]byte{t}, x, y)))
+			h.do("special-point", "pubkey_parse", hx(cat([]byte{t}, x, ny)))
+		}
+		h.do("special-point", "pubkey_parse", hx(cat([]byte{2}, x)))
+		h.do("special-point", "pubkey_parse", hx(cat([]byte{3}, x)))
+		h.do("special-point", "pubkey_roundtrip", hx(cat([]byte{4}, x, y)))
+		h.do("special-point", "schnorr_pubkey_parse", hx(cat([]byte{2}, x)))
+		y1 := be32(new(big.Int).Add(pt[1], big.NewInt(1)))
+		h.do("special-point-off", "pubkey_parse", hx(cat([]byte{4}, x, y1)))
+	}
 	// small x values (some on curve, some not), x = 0
 	for v := 0; v < 12; v++ {
 		xb := be32(big.NewInt(int64(v)))
 		h.do("small-x", "pubkey_parse", hx(cat([]byte{2}, xb)))
 		h.do("small-x", "pubkey_parse", hx(cat([]byte{3}, xb)))
 	}
+}
+
+// cubeRoots returns the cube roots of c modulo p (none or three): p = 1 mod 3 and 9 does not divide p-1, so
+// cubing is a bijection on the cubic residues with inverse exponent 3^-1 mod (p-1)/3.
+func cubeRoots(c *big.Int) []*big.Int {
+	c = new(big.Int).Mod(c, curveP)
+	if c.Sign() == 0 {
+		return nil
+	}
+	m := new(big.Int).Div(new(big.Int).Sub(curveP, big.NewInt(1)), big.NewInt(3))
+	if new(big.Int).Exp(c, m, curveP).Cmp(big.NewInt(1)) != 0 {
+		return nil
+	}
+	e := new(big.Int).ModInverse(big.NewInt(3), m)
+	r := new(big.Int).Exp(c, e, curveP)
+	if new(big.Int).Exp(r, big.NewInt(3), curveP).Cmp(c) != 0 {
+		return nil
+	}
+	// a primitive cube root of unity: g^((p-1)/3) for the first g that gives one
+	var beta *big.Int
+	for g := int64(2); ; g++ {
+		beta = new(big.Int).Exp(big.NewInt(g), m, curveP)
+		if beta.Cmp(big.NewInt(1)) != 0 {
+			break
+		}
+	}
+	r2 := new(big.Int).Mod(new(big.Int).Mul(r, beta), curveP)
+	r3 := new(big.Int).Mod(new(big.Int).Mul(r2, beta), curveP)
+	return []*big.Int{r, r2, r3}
+}
+
+// specialPoints: curve points built from a chosen value of x^3 (resp. y), aimed at the places where a field
+// value that should have been normalised still happens to be right for almost every input:
+//   - y small (y^2 - 7 = x^3 within 2^12 of 0 or of p, so x^3 + 7 wraps past p),
+//   - x^3 mod p with low limb within 7 of 2^26 (the carry-less AddInt(7) overflows limb 0),
+//   - x^3 mod p with whole limbs saturated / just below the limbs of p,
+//   - y below 2^32+977 in both parities (the un-reduced form differs from the canonical one).
+func (h *H) specialPoints(n int) [][2]*big.Int {
+	var out [][2]*big.Int
+	add := func(c *big.Int) bool { // c = wanted x^3 mod p
+		y2 := new(big.Int).Add(c, big.NewInt(7))
+		y := new(big.Int).ModSqrt(y2.Mod(y2, curveP), curveP)
+		if y == nil {
+			return false
+		}
+		rs := cubeRoots(c)
+		if rs == nil {
+			return false
+		}
+		x := rs[h.rng.Intn(3)]
+		if h.rng.Intn(2) == 0 {
+			y = new(big.Int).Sub(curveP, y)
+		}
+		out = append(out, [2]*big.Int{x, y})
+		return true
+	}
+	// small y
+	cnt := 0
+	for yv := int64(1); yv < 200 && cnt < n; yv++ {
+		c := new(big.Int).Mod(big.NewInt(yv*yv-7), curveP)
+		if add(c) {
+			cnt++
+		}
+	}
+	// low limb of x^3 within 7 of 2^26
+	cnt = 0
+	for t := 0; t < 400 && cnt < n; t++ {
+		c := new(big.Int).SetBytes(h.randBytes(32))
+		c.Mod(c, curveP)
+		c.Or(c, big.NewInt(1<<26-1))
+		c.Sub(c, big.NewInt(int64(h.rng.Intn(7))))
+		if c.Cmp(curveP) < 0 && add(c) {
+			cnt++
+		}
+	}
+	// saturated limbs: p - delta with delta small or with a few zeroed 26-bit windows
+	cnt = 0
+	for t := 0; t < 400 && cnt < n; t++ {
+		c := new(big.Int).Sub(curveP, big.NewInt(int64(8+h.rng.Intn(1<<20))))
+		for k := 0; k < h.rng.Intn(3); k++ {
+			w := uint(26 * (1 + h.rng.Intn(9)))
+			mask := new(big.Int).Lsh(big.NewInt(int64(h.rng.Intn(1<<12))), w)
+			c.AndNot(c, mask)
+		}
+		if add(c) {
+			cnt++
+		}
+	}
+	return out
 }
